@@ -1,13 +1,13 @@
 import MgpuProofs.C02WfStep
-/-! The static hazard check implies the address-exact one (straight-line programs, one alias class,
-    no FLAT instruction with EXEC = 0). -/
+/-! The static hazard check implies the address-exact one (straight-line programs, one alias class). -/
 namespace C02.Wf
 
 variable {P : Prog}
 
-/-- the dynamic state tracks the same instructions as the static one (the byte ranges are ignored) -/
+/-- the dynamic state tracks a suffix of the vector accesses the static one tracks (an access without
+    transactions retires everything older) and the same scalar loads; byte ranges are ignored -/
 structure HRel (Hs Hd : HState) : Prop where
-  pv : Hd.pv.map Prod.fst = Hs.pv.map Prod.fst
+  pv : Hd.pv.map Prod.fst <:+ Hs.pv.map Prod.fst
   ps : Hd.ps.map Prod.fst = Hs.ps.map Prod.fst
 
 theorem all_map_fst (l : List (Inst × Ranges)) (f : Inst → Bool) : l.all (fun q => f q.1) = (l.map Prod.fst).all f := by
@@ -15,40 +15,62 @@ theorem all_map_fst (l : List (Inst × Ranges)) (f : Inst → Bool) : l.all (fun
   | nil => rfl
   | cons a as ih => simp [ih]
 
-theorem HRel.reg_ok {Hs Hd : HState} (h : HRel Hs Hd) (i : Inst) : regOK Hd i = regOK Hs i := by
-  unfold regOK
-  rw [all_map_fst (Hd.pv ++ Hd.ps) (fun q => !q.isLoad || disj (i.rd ++ i.wr) q.wr),
-    all_map_fst (Hs.pv ++ Hs.ps) (fun q => !q.isLoad || disj (i.rd ++ i.wr) q.wr)]
-  simp only [List.map_append, h.pv, h.ps]
+theorem HRel.sub {Hs Hd : HState} (h : HRel Hs Hd) : ∀ q ∈ (Hd.pv ++ Hd.ps).map Prod.fst,
+    q ∈ (Hs.pv ++ Hs.ps).map Prod.fst := by
+  intro q hq
+  simp only [List.map_append, List.mem_append] at hq ⊢
+  rcases hq with hq | hq
+  · exact Or.inl (h.pv.subset hq)
+  · exact Or.inr (h.ps ▸ hq)
+
+theorem HRel.all_mono {Hs Hd : HState} (h : HRel Hs Hd) (f : Inst → Bool)
+    (hs : (Hs.pv ++ Hs.ps).all (fun q => f q.1) = true) : (Hd.pv ++ Hd.ps).all (fun q => f q.1) = true := by
+  rw [all_map_fst] at hs ⊢
+  simp only [List.all_eq_true] at hs ⊢
+  exact fun q hq => hs q (h.sub q hq)
+
+theorem HRel.reg_ok {Hs Hd : HState} (h : HRel Hs Hd) (i : Inst) (hs : regOK Hs i = true) : regOK Hd i = true :=
+  h.all_mono (fun q => !q.isLoad || disj (i.rd ++ i.wr) q.wr) hs
 
 theorem HRel.mem_ok {Hs Hd : HState} (h : HRel Hs Hd) (i : Inst) (fp : Ranges)
     (hreg : ∀ q ∈ Hs.pv ++ Hs.ps, q.1.region = i.region) (hs : memOK true Hs i [] = true) :
     memOK false Hd i fp = true := by
-  have h1 : ((Hs.pv ++ Hs.ps).map Prod.fst).all (fun q => !(q.isStore || i.isStore)) = true := by
-    rw [← all_map_fst (Hs.pv ++ Hs.ps) (fun q => !(q.isStore || i.isStore))]
+  have h1 : (Hs.pv ++ Hs.ps).all (fun q => !(q.1.isStore || i.isStore)) = true := by
     simp only [memOK, if_true, List.all_eq_true] at hs ⊢
     intro q hq
     have := hs q hq
     have hr := hreg q hq
     simpa [hr] using this
-  have h2 : ((Hd.pv ++ Hd.ps).map Prod.fst).all (fun q => !(q.isStore || i.isStore)) = true := by
-    simpa only [List.map_append, h.pv, h.ps] using h1
-  rw [← all_map_fst (Hd.pv ++ Hd.ps) (fun q => !(q.isStore || i.isStore))] at h2
+  have h2 := h.all_mono (fun q => !(q.isStore || i.isStore)) h1
   simp only [memOK, List.all_eq_true] at h2 ⊢
   intro q hq
   simp [h2 q hq]
 
+theorem suffix_drop_youngest {α : Type} (d s : List α) (n : Nat) (h : d <:+ s) :
+    d.drop (d.length - n) <:+ s.drop (s.length - n) := by
+  obtain ⟨t, rfl⟩ := h
+  by_cases hn : d.length ≤ n
+  · have h0 : d.length - n = 0 := by omega
+    rw [h0, List.drop_zero]
+    have hk : (t ++ d).length - n ≤ t.length := by simp; omega
+    rw [List.drop_append_of_le_length hk]
+    exact List.suffix_append _ _
+  · have hk : (t ++ d).length - n = t.length + (d.length - n) := by simp; omega
+    rw [hk, List.drop_append]
+    have e1 : t.length + (d.length - n) - t.length = d.length - n := by omega
+    rw [e1]
+    exact List.suffix_append _ _
+
 theorem HRel.after_wait {Hs Hd : HState} (h : HRel Hs Hd) (a b : Nat) : HRel (afterWait Hs a b) (afterWait Hd a b) := by
   unfold C02.Wf.afterWait
   by_cases hb : b = 0
-  · simp only [hb, if_true]; exact ⟨rfl, rfl⟩
+  · simp only [hb, if_true]; exact ⟨List.suffix_refl _, rfl⟩
   · simp only [hb, if_false]
-    have hl : Hd.pv.length = Hs.pv.length := by
-      have := congrArg List.length h.pv
-      simpa using this
     refine ⟨?_, h.ps⟩
-    show (Hd.pv.drop (Hd.pv.length - a)).map Prod.fst = (Hs.pv.drop (Hs.pv.length - a)).map Prod.fst
-    rw [List.map_drop, List.map_drop, h.pv, hl]
+    show (Hd.pv.drop (Hd.pv.length - a)).map Prod.fst <:+ (Hs.pv.drop (Hs.pv.length - a)).map Prod.fst
+    rw [List.map_drop, List.map_drop]
+    have := suffix_drop_youngest _ _ a h.pv
+    simpa using this
 
 theorem estep_some {E : EState} {i : Inst} (hi : P.instAt E.pc = some i) (hd : E.done = false) :
     ∃ E', estep P E = some E' ∧ E'.done = decide (i.kind = .endpgm) ∧
@@ -63,10 +85,11 @@ theorem hazardFreeRun_done (n : Nat) (x : EState × HState) (h : x.1.done = true
   | zero => exact h
   | succ n => simp [hazardFreeRun, h]
 
-theorem static_sound_aux (all : List Inst) (hall : ∀ i ∈ all, ∀ j ∈ all, i.region = j.region) :
+theorem static_sound_aux (hfix : P.oldCU = false) (all : List Inst)
+    (hall : ∀ i ∈ all, ∀ j ∈ all, i.region = j.region) :
     ∀ (is : List Inst) (E : EState) (Hs Hd : HState), (∀ i ∈ is, i ∈ all) →
       (∀ q ∈ Hs.pv ++ Hs.ps, q.1 ∈ all) → HRel Hs Hd → E.done = false →
-      StraightLine P E.pc is → hcheckFrom Hs is = true → noEmptyRun P is.length E = true →
+      StraightLine P E.pc is → hcheckFrom Hs is = true → accRun P is.length E = true →
       hazardFreeRun P is.length (E, Hd) = true := by
   intro is
   induction is with
@@ -76,16 +99,24 @@ theorem static_sound_aux (all : List Inst) (hall : ∀ i ∈ all, ∀ j ∈ all,
     obtain ⟨hi, hnb, hrest⟩ := hsl
     obtain ⟨E', he, hd', hpc'⟩ := estep_some hi hd
     simp only [hcheckFrom] at hc
-    cases hh : hstep true Hs i [] false with
+    cases hh : hstep true false Hs i [] false with
     | none => simp [hh] at hc
     | some Hs' =>
       simp only [hh] at hc
-      simp only [List.length_cons, noEmptyRun, hd, Bool.false_eq_true, if_false, hi, he, Bool.and_eq_true] at hne
+      simp only [List.length_cons, accRun, hd, Bool.false_eq_true, if_false, hi, he, Bool.and_eq_true] at hne
       have hiall := hsub i (List.mem_cons_self ..)
       have hregq : ∀ q ∈ Hs.pv ++ Hs.ps, q.1.region = i.region := fun q hq => hall _ (hHs q hq) _ hiall
+      have hpush : ∀ q ∈ (Hs.pv ++ [(i, ([] : Ranges))]) ++ Hs.ps, q.1 ∈ all := by
+        intro q hq
+        simp only [List.mem_append, List.mem_singleton] at hq
+        rcases hq with (h | h) | h
+        · exact hHs q (List.mem_append_left _ h)
+        · rw [h]; exact hiall
+        · exact hHs q (List.mem_append_right _ h)
       -- the dynamic step
-      have hdyn : ∃ Hd', hstep false Hd i (i.fpl E.regs) (i.noTxn E.regs) = some Hd' ∧ HRel Hs' Hd' ∧
+      have hdyn : ∃ Hd', hstep false P.oldCU Hd i (i.fpl E.regs) (i.noTxn E.regs) = some Hd' ∧ HRel Hs' Hd' ∧
           (∀ q ∈ Hs'.pv ++ Hs'.ps, q.1 ∈ all) := by
+        rw [hfix]
         unfold hstep at hh ⊢
         cases hk : i.kind with
         | wait a b =>
@@ -102,7 +133,7 @@ theorem static_sound_aux (all : List Inst) (hall : ∀ i ∈ all, ∀ j ∈ all,
             · exact List.mem_append_right _ h
         | endpgm =>
           simp only [hk] at hh ⊢; cases hh
-          exact ⟨_, rfl, ⟨rfl, rfl⟩, by intro q hq; simp at hq⟩
+          exact ⟨_, rfl, ⟨List.suffix_refl _, rfl⟩, by intro q hq; simp at hq⟩
         | nop =>
           simp only [hk] at hh ⊢; cases hh
           exact ⟨_, rfl, hrel, hHs⟩
@@ -110,7 +141,7 @@ theorem static_sound_aux (all : List Inst) (hall : ∀ i ∈ all, ∀ j ∈ all,
           simp only [hk] at hh ⊢
           split at hh
           · rename_i hr; cases hh
-            rw [hrel.reg_ok i, hr]
+            rw [hrel.reg_ok i hr]
             exact ⟨_, rfl, hrel, hHs⟩
           · cases hh
         | branch => exact absurd hk hnb
@@ -119,43 +150,35 @@ theorem static_sound_aux (all : List Inst) (hall : ∀ i ∈ all, ∀ j ∈ all,
           split at hh
           · rename_i hr; cases hh
             simp only [Bool.and_eq_true] at hr
-            have hnt : i.noTxn E.regs = false := by
-              have := hne.1.1
-              simpa [Inst.isVMem, hk] using this
-            rw [hrel.reg_ok i, hr.1, hrel.mem_ok i _ hregq hr.2, hnt]
-            refine ⟨_, rfl, ⟨?_, hrel.ps⟩, ?_⟩
-            · simp [hrel.pv]
-            · intro q hq
-              simp only [Bool.false_eq_true, if_false, List.mem_append, List.mem_singleton] at hq
-              rcases hq with (h | h) | h
-              · exact hHs q (List.mem_append_left _ h)
-              · rw [h]; exact hiall
-              · exact hHs q (List.mem_append_right _ h)
+            rw [hrel.reg_ok i hr.1, hrel.mem_ok i _ hregq hr.2]
+            refine ⟨_, rfl, ⟨?_, ?_⟩, hpush⟩
+            · cases i.noTxn E.regs
+              · simp only [Bool.false_eq_true, if_false, List.map_append, List.map_cons, List.map_nil]
+                obtain ⟨t, ht⟩ := hrel.pv
+                exact ⟨t, by rw [← ht]; simp⟩
+              · simp
+            · cases i.noTxn E.regs <;> simp [hrel.ps]
           · cases hh
         | vstore =>
           simp only [hk] at hh ⊢
           split at hh
           · rename_i hr; cases hh
             simp only [Bool.and_eq_true] at hr
-            have hnt : i.noTxn E.regs = false := by
-              have := hne.1.1
-              simpa [Inst.isVMem, hk] using this
-            rw [hrel.reg_ok i, hr.1, hrel.mem_ok i _ hregq hr.2, hnt]
-            refine ⟨_, rfl, ⟨?_, hrel.ps⟩, ?_⟩
-            · simp [hrel.pv]
-            · intro q hq
-              simp only [Bool.false_eq_true, if_false, List.mem_append, List.mem_singleton] at hq
-              rcases hq with (h | h) | h
-              · exact hHs q (List.mem_append_left _ h)
-              · rw [h]; exact hiall
-              · exact hHs q (List.mem_append_right _ h)
+            rw [hrel.reg_ok i hr.1, hrel.mem_ok i _ hregq hr.2]
+            refine ⟨_, rfl, ⟨?_, ?_⟩, hpush⟩
+            · cases i.noTxn E.regs
+              · simp only [Bool.false_eq_true, if_false, List.map_append, List.map_cons, List.map_nil]
+                obtain ⟨t, ht⟩ := hrel.pv
+                exact ⟨t, by rw [← ht]; simp⟩
+              · simp
+            · cases i.noTxn E.regs <;> simp [hrel.ps]
           · cases hh
         | sload =>
           simp only [hk] at hh ⊢
           split at hh
           · rename_i hr; cases hh
             simp only [Bool.and_eq_true] at hr
-            rw [hrel.reg_ok i, hr.1, hrel.mem_ok i _ hregq hr.2]
+            rw [hrel.reg_ok i hr.1, hrel.mem_ok i _ hregq hr.2]
             refine ⟨_, rfl, ⟨hrel.pv, ?_⟩, ?_⟩
             · simp [hrel.ps]
             · intro q hq
@@ -168,7 +191,7 @@ theorem static_sound_aux (all : List Inst) (hall : ∀ i ∈ all, ∀ j ∈ all,
       obtain ⟨Hd', hdh, hrel', hHs'⟩ := hdyn
       have hes : ehstep P (E, Hd) = some (E', Hd') := by
         unfold ehstep
-        simp only [hd, Bool.false_eq_true, if_false, hi, hdh, he, hne.1.2, if_true]
+        simp only [hd, Bool.false_eq_true, if_false, hi, hdh, he, hne.1, if_true]
       simp only [List.length_cons, hazardFreeRun, hd, Bool.false_eq_true, if_false, hes]
       by_cases hk' : i.kind = .endpgm
       · exact hazardFreeRun_done _ _ (by simp [hd', hk'])
